@@ -62,7 +62,10 @@ pub fn iter_adaptors(_args: &[String]) -> String {
             if !ok {
                 return fail("C17 wrapping an iterator does not change the items", format!("n={} {}", n, what));
             }
-            if pb.position() != n as u64 || !pb.is_finished() {
+            if !pb.is_finished() {
+                return fail("C17/C04 exhaustion of the wrapped iterator finishes the bar (is_finished() is true afterwards)", format!("n={} mode {} ({}): position {} finished {}", n, mode, what, pb.position(), pb.is_finished()));
+            }
+            if pb.position() != n as u64 {
                 return fail("C17 the position advances by the number of items and exhaustion finishes the bar", format!("n={} mode {} ({}): position {} finished {}", n, mode, what, pb.position(), pb.is_finished()));
             }
         }
